@@ -228,5 +228,6 @@ def run(ctx):
     c04.check_block_deser(ctx, "C15.5")
     c04.check_mine_block(ctx, "C15.5")
     c05.check_writer(ctx, "C15.6")
+    c05.check_reader(ctx, "C15.6")
     c05.check_witness(ctx, "C15.6")
     c13.check_push_selection(ctx, "C15.6")
